@@ -153,6 +153,35 @@ func eqFact(s Summary, a, b *Term) (known, val bool, seq int) {
 
 func fieldT(base *Term, name string, typ types.Type) *Term { return mk("field", name, 0, typ, base) }
 
+// fieldByType selects the field of base's struct type whose type prints as want (unexported fields are an
+// implementation detail: rules address them by what they hold, not by what they are called).
+func fieldByType(base *Term, want string) *Term {
+	if base == nil || base.Typ == nil {
+		return mk("field", "?unknown-base:"+want, 0, nil, base)
+	}
+	t := base.Typ
+	if p, ok := t.Underlying().(*types.Pointer); ok {
+		t = p.Elem()
+	}
+	st, ok := t.Underlying().(*types.Struct)
+	if !ok {
+		return mk("field", "?not-a-struct:"+want, 0, nil, base)
+	}
+	var found *types.Var
+	for i := 0; i < st.NumFields(); i++ {
+		if typeStr(st.Field(i).Type()) == want {
+			if found != nil {
+				return mk("field", "?ambiguous:"+want, 0, nil, base)
+			}
+			found = st.Field(i)
+		}
+	}
+	if found == nil {
+		return mk("field", "?missing:"+want, 0, nil, base)
+	}
+	return mk("field", found.Name(), 0, found.Type(), base)
+}
+
 func isParam(t *Term, name string) bool { return t != nil && t.Kind == "param" && t.Name == name }
 
 // paramByType finds the unique parameter of fn with the given type string.
